@@ -71,8 +71,13 @@ def safe_run_case(mod, case):
     if _CASES_SINCE_GC >= 64:
         _CASES_SINCE_GC = 0
         gc.collect()
+    oom = False
     try:
         return mod.run_case(case)
+    except MemoryError:
+        # allocation without end in the code under test (the address-space limit of the process stopped it): leave
+        # the handler first, so that the frames holding the data are released, then report
+        oom = True
     except Exception as e:
         tb = e.__traceback__
         last = None
@@ -96,6 +101,14 @@ def safe_run_case(mod, case):
                  'operation of the property may have)' % (type(e).__name__, str(e)[:200], where),
                  exc=type(e).__name__)
         out.digest = 'exc:' + type(e).__name__
+        return out
+    if oom:
+        gc.collect()
+        out = core.Outcome()
+        out.fail('exception-escaped-code-under-test', 0,
+                 'MemoryError: the run allocated until the address-space limit of the process was reached (an operation '
+                 'that never ends, or reads or writes without bound)', exc='MemoryError')
+        out.digest = 'exc:MemoryError'
         return out
 
 
@@ -377,6 +390,13 @@ def run_check(mod, tier, seed, root, budget_s=None, workers=None, min_runs=None,
     block = cfg.get('block', 200)
     ndig = 16 if not selftest else 200
     known = load_known(mod.PROPERTY)
+    try:
+        # the parent re-executes violating cases (to minimise them): code under test that allocates without end
+        # must end in a MemoryError there too, not take the machine down (workers have their own, lower limit)
+        import resource
+        resource.setrlimit(resource.RLIMIT_AS, (3 << 30, 3 << 30))
+    except Exception:
+        pass
     print('check %s tier=%s VERIF_SEED=%d root=%s workers=%d min_runs=%d budget=%ss'
           % (mod.PROPERTY, tier, seed, root, workers, min_runs, budget_s), flush=True)
 
